@@ -637,4 +637,105 @@ theorem run_observers {N k : Nat} (hN : 0 < N) (ops : List Op) (hv : ∀ op, op 
   refine ⟨st', hs, fun o => ⟨fun pos hp => ⟨test_eq (hr o) pos hp, getConst_eq (hr o) pos hp, refGet_eq (hr o) pos hp⟩,
     count_eq' (hr o), all_eq hN (hr o), any_eq (hr o), none_eq (hr o), fun o2 => eq_eq (hr o) (hr o2)⟩⟩
 
+/-! ## to_ulong / to_ullong -/
+
+theorem sumBits_spec (f : Spec.Bits) : ∀ n, Spec.toNat n f < 2 ^ n ∧
+    ∀ j, (Spec.toNat n f).testBit j = (decide (j < n) && f j)
+  | 0 => by simp [Spec.toNat]
+  | n + 1 => by
+    obtain ⟨hlt, hb⟩ := sumBits_spec f n
+    have e : Spec.toNat (n + 1) f = (if f n then 2 ^ n else 0) + Spec.toNat n f := by
+      simp [Spec.toNat, List.range_succ, List.sum_append, Nat.add_comm]
+    rw [e]
+    have hp : 2 ^ (n + 1) = 2 ^ n + 2 ^ n := by rw [Nat.pow_succ]; omega
+    cases hf : f n
+    · simp only [Bool.false_eq_true, if_false, Nat.zero_add]
+      refine ⟨by omega, fun j => ?_⟩
+      rw [hb]
+      by_cases h1 : j < n
+      · have : j < n + 1 := by omega
+        simp [h1, this]
+      · by_cases h2 : j = n
+        · subst h2; simp [hf]
+        · have : ¬ j < n + 1 := by omega
+          simp [h1, this]
+    · simp only [if_true]
+      refine ⟨by omega, fun j => ?_⟩
+      by_cases h1 : j < n
+      · have : j < n + 1 := by omega
+        rw [Nat.testBit_two_pow_add_gt h1, hb]; simp [h1, this]
+      · by_cases h2 : j = n
+        · subst h2
+          rw [Nat.testBit_two_pow_add_eq, Nat.testBit_lt_two_pow hlt]; simp [hf]
+        · have h3 : ¬ j < n + 1 := by omega
+          have : 2 ^ n + Spec.toNat n f < 2 ^ j :=
+            Nat.lt_of_lt_of_le (by omega : _ < 2 ^ (n + 1)) (Nat.pow_le_pow_right (by decide) (by omega))
+          rw [Nat.testBit_lt_two_pow this]; simp [h3]
+
+theorem toUnsignedLoop_spec {N k : Nat} {ws : Words k} {f : Spec.Bits} (h : Rep N k ws f) :
+    ∀ (n i : Nat) (r : Word 6), i + n ≤ N → i + n ≤ 64 →
+      (∀ j, j < 64 → r.getLsbD j = (decide (j < i) && f j)) →
+      ∃ r', toUnsignedLoop N ws n i r = .ok r' ∧ ∀ j, j < 64 → r'.getLsbD j = (decide (j < i + n) && f j)
+  | 0, i, r, _, _, hr => ⟨r, rfl, by simpa using hr⟩
+  | n + 1, i, r, h1, h2, hr => by
+    have hi : i < 2 ^ 6 := by omega
+    have ht := test_eq h i (by omega)
+    have hstep : ∃ r1, (if Spec.test f i then setBit r (BitVec.ofNat (2 ^ 6) i) else .ok r) = .ok r1 ∧
+        ∀ j, j < 64 → r1.getLsbD j = (decide (j < i + 1) && f j) := by
+      cases hf : f i
+      · refine ⟨r, by simp [Spec.test, hf], fun j hj => ?_⟩
+        rw [hr j hj]
+        by_cases e : j = i
+        · subst e; simp [hf]
+        · have : (j < i + 1) = (j < i) := by apply propext; omega
+          simp only [this]
+      · obtain ⟨y, hy, hyb⟩ := setBit_spec r (BitVec.ofNat (2 ^ 6) i) (by rw [ofNat_toNat_of_lt hi]; exact hi)
+        rw [ofNat_toNat_of_lt hi] at hyb
+        refine ⟨y, by simp [Spec.test, hf, hy], fun j hj => ?_⟩
+        rw [hyb j hj]
+        by_cases e : j = i
+        · subst e; simp [hf]
+        · have : (j < i + 1) = (j < i) := by apply propext; omega
+          simp only [e, if_false, hr j hj, this]
+    obtain ⟨r1, hs1, hr1⟩ := hstep
+    obtain ⟨r', hs', hr'⟩ := toUnsignedLoop_spec h n (i + 1) r1 (by omega) (by omega) hr1
+    have hrun : toUnsignedLoop N ws (n + 1) i r = .ok r' := by
+      simp only [toUnsignedLoop, ht, ok_bind]
+      cases hb : Spec.test f i
+      · simp only [hb, Bool.false_eq_true, if_false] at hs1 ⊢
+        cases hs1
+        simpa using hs'
+      · simp only [hb, if_true] at hs1 ⊢
+        simp [hs1, hs']
+    refine ⟨r', hrun, fun j hj => ?_⟩
+    rw [hr' j hj]
+    have : (j < i + 1 + n) = (j < i + (n + 1)) := by apply propext; omega
+    simp only [this]
+
+/-- `to_ulong()` / `to_ullong()` for `Bits <= 64` (the only widths for which the members exist):
+    the value is Σ 2^i over the set bits.  Partial: the hypothesis `N ≤ 64` is exactly the class of
+    the known finding F-C17-to-ullong-wide-absent. -/
+theorem toUnsigned_partial {N k : Nat} {ws : Words k} {f : Spec.Bits} (h : Rep N k ws f) (h64 : N ≤ 64) :
+    toUnsigned N ws = some (.ok (Spec.toNat N f)) := by
+  obtain ⟨r, hs, hr⟩ := toUnsignedLoop_spec h (min N 64) 0 (0#(2 ^ 6)) (by omega) (by omega) (by simp)
+  have hge : 64 ≥ N := h64
+  simp only [toUnsigned, hge, if_true, hs, ok_bind]
+  congr 2
+  apply Nat.eq_of_testBit_eq
+  intro j
+  rw [BitVec.testBit_toNat, (sumBits_spec f N).2 j]
+  by_cases hj : j < 64
+  · rw [hr j hj]
+    have : (j < 0 + min N 64) = (j < N) := by apply propext; omega
+    simp only [this]
+  · have : ¬ j < N := by omega
+    rw [BitVec.getLsbD_of_ge _ _ (by simpa using hj)]; simp [this]
+
+example : Rep 9 6 (init 9 6) Spec.zero ∧ 9 ≤ 64 := ⟨init_rep 9 6, by decide⟩
+
+/-- the excluded class contains a failing input: for `Bits = 65` the member does not exist, while
+    `std::bitset<65>{5}.to_ullong()` is 5 -/
+theorem toUnsigned_counterexample : toUnsigned 65 (init 65 6) = Option.none ∧ Spec.toNat 65 (Spec.ofNat 5) = 5 := by
+  decide
+
 end Tetl.C17.Props
